@@ -20,6 +20,7 @@ func init() {
 			"(R2) createDirectory records a child in the created entry only on the success edge of that child's creation (file/symlink: err==nil and the planned child; directory: the non-nil partial result) and removeDirectory deletes a child from the expected entry only after its removal succeeded and clears the contents wholesale only when not cancelled and nothing failed (see C03.R3 classes); " +
 			"(R3) in create/createDirectory/remove/removeDirectory/Transition every observed filesystem error or cancellation is followed by recordProblem before the function continues or returns; " +
 			"(R5) in findAndMoveStagedFileIntoPlace: after the temporary was created every error exit removes it; the final rename is dominated by the copy's error being nil; permissions on the staged file and on the intermediate copy use the same computed mode; the copy reads the staged file into the temporary. " +
+			"(R9, shared with C18.R4) every permission-setting call made while a file is placed or swapped uses φ(defaultFileMode | markExecutableForReaders(defaultFileMode)) chosen on the entry's Executable bit — so the reported entry's executability is what is on disk (a base that may already carry executable bits could never be cleared); " +
 			"Not decided: that the reported entry equals a subsequent scan under injected faults (needs execution); rename/unlink atomicity.",
 		Assumptions: []string{"a failed filesystem call leaves the named child as it was (no partial effects of single syscalls)"},
 		Run:         runC09,
@@ -27,6 +28,10 @@ func init() {
 }
 
 func runC09(c *eng.Ctx) {
+	// R9 (shared with C18.R4): the mode a placed or swapped file ends up with is
+	// the one the reported entry says — chosen on Executable over the default
+	// file mode as base.
+	c18AppliedMode(c, "R9")
 	c09TransitionLoop(c)
 	c09CreateDirectory(c)
 	trRemoveDirectoryFlags(c, "R2")
